@@ -7,7 +7,7 @@ it that dispatches, persists and reports too-long (`C02Core.sstep`).  The *order
 is regenerated from the Go AST (`Facts.C03`, interpreted by `C03.orders`); the theorems below first
 pin that order and then prove the property for every op list.
 -/
-import TdModel.Lemmas.C02Core
+import TdModel.Lemmas.C02MgrG
 import TdModel.Model.C03
 
 namespace TdModel.C03
@@ -30,7 +30,7 @@ theorem channel_applyPts_dispatch_before_store (c : Nat) : applyCallsOf orders (
   decide
 
 /-- … so for every sequence key. -/
-theorem apply_callbacks_dispatch_then_store (k : SeqKey) : applyCallsOf orders k = [.dispatch, .store] := by
+theorem apply_callbacks_dispatch_then_store (k : Nat) : applyCallsOf orders k = [.dispatch, .store] := by
   by_cases h0 : k = 0
   · subst h0; decide
   · by_cases h1 : k = 1
@@ -47,7 +47,7 @@ theorem marker_skip_is_continue :
     orders.applyPtsBreak = false ∧ orders.chApplyPtsBreak = false := by decide
 
 /-- Every apply callback dispatches then stores, and skips only markers. -/
-theorem apply_callbacks_good (mk : Nat → Bool) (k : SeqKey) : GoodCfg (applyCfgOf orders mk k) := by
+theorem apply_callbacks_good (mk : Nat → Bool) (k : Nat) : GoodCfg (applyCfgOf orders mk k) := by
   refine ⟨apply_callbacks_dispatch_then_store k, ?_⟩
   show (if k = 0 then orders.applyPtsBreak else if k = 1 then false else orders.chApplyPtsBreak) = false
   rw [marker_skip_is_continue.2.2.1, marker_skip_is_continue.2.2.2]
@@ -58,7 +58,7 @@ theorem apply_callbacks_good (mk : Nat → Bool) (k : SeqKey) : GoodCfg (applyCf
 /-- **Every non-marker update of an applied batch is handed to the handler** (and nothing else):
 for the batch `us` a box reports, the ids dispatched by the callback of any sequence are exactly
 the tags of `us` that are not markers. -/
-theorem applied_batch_dispatches_every_non_marker (mk : Nat → Bool) (k : SeqKey) (us : List Upd) (i : Nat) :
+theorem applied_batch_dispatches_every_non_marker (mk : Nat → Bool) (k : Nat) (us : List Upd) (i : Nat) :
     i ∈ batchIds (applyCfgOf orders mk k) us ↔ (∃ u ∈ us, u.tag = i) ∧ mk i = false :=
   mem_batchIds _ (apply_callbacks_good mk k).cont us i
 
@@ -104,7 +104,7 @@ persisted start position `lo`, and any list of ops whose pushes are log entries 
 and whose difference steps are honest (`wfRun`).  Then at every store event every non-marker entry
 at or below the stored value (and above `lo`) has already been dispatched, unless too-long was
 reported before. -/
-theorem C03_prefix_safe (k : SeqKey) (mk : Nat → Bool) (log : List Entry) (c0 lo : Int) (hc0 : 0 ≤ c0)
+theorem C03_prefix_safe (k : Nat) (mk : Nat → Bool) (log : List Entry) (c0 lo : Int) (hc0 : 0 ≤ c0)
     (ht : tiled c0 log = true) (ops : List SOp)
     (hw : wfRun (applyCfgOf orders mk k) log { state := lo } ops = true) :
     safe log mk lo [] false (srun (applyCfgOf orders mk k) { state := lo } ops).2 = true :=
@@ -113,7 +113,7 @@ theorem C03_prefix_safe (k : SeqKey) (mk : Nat → Bool) (log : List Entry) (c0 
 
 /-- … hence at every crash point (any prefix `pre` of the events) the persisted value
 `lastStore lo pre` is covered by what was dispatched in `pre`, or too-long was reported in `pre`. -/
-theorem C03_crash_point_covered (k : SeqKey) (mk : Nat → Bool) (log : List Entry) (c0 lo : Int) (hc0 : 0 ≤ c0)
+theorem C03_crash_point_covered (k : Nat) (mk : Nat → Bool) (log : List Entry) (c0 lo : Int) (hc0 : 0 ≤ c0)
     (ht : tiled c0 log = true) (ops : List SOp)
     (hw : wfRun (applyCfgOf orders mk k) log { state := lo } ops = true)
     (pre post : List SEv) (hp : (srun (applyCfgOf orders mk k) { state := lo } ops).2 = pre ++ post) :
@@ -134,7 +134,7 @@ theorem C03_crash_point_covered (k : SeqKey) (mk : Nat → Bool) (log : List Ent
 persisted then (`v`); let the second run be well-formed and end at or above every log position
 (recovery).  Then every non-marker log entry above the original start was dispatched before the
 crash or after the restart, or too-long was reported in one of the two runs. -/
-theorem C03_restart_complete (k : SeqKey) (mk : Nat → Bool) (log : List Entry) (c0 lo : Int) (hc0 : 0 ≤ c0)
+theorem C03_restart_complete (k : Nat) (mk : Nat → Bool) (log : List Entry) (c0 lo : Int) (hc0 : 0 ≤ c0)
     (ht : tiled c0 log = true) (ops1 ops2 : List SOp)
     (hw1 : wfRun (applyCfgOf orders mk k) log { state := lo } ops1 = true)
     (pre post : List SEv) (hp : (srun (applyCfgOf orders mk k) { state := lo } ops1).2 = pre ++ post)
@@ -225,5 +225,66 @@ theorem C03_counterexample_tooLong :
 
 /-- With the regenerated (repaired) order the callback comes first. -/
 example : tooLongHistory orders = [.apiDiff 10 0, .apiDiff 10 0, .tooLong, .storePts 11, .apiDiff 11 0] := by decide
+
+/-! ### The whole manager model -/
+
+/-- The regenerated orders are the ones the manager-level invariant is proved for. -/
+theorem orders_good : GoodOrders orders :=
+  ⟨by decide, by decide, by decide, by decide, by decide, by decide, by decide, by decide, by decide, by decide,
+   by decide, by decide, by decide, by decide, by decide, by decide⟩
+
+/-- **Prefix safety for the whole manager model.** For any server world satisfying `scnOK`, any
+persisted start, any number of tracked channels and any list of harness actions, the trace of the
+manager model (main loop, channel workers, queues, difference oracle) is safe for every tracked
+sequence: at every store everything at or below the stored value was dispatched before, unless
+too-long was reported before. -/
+theorem C03_manager_prefix_safe (w : World) (fp fq : Int) (fc : List (Nat × Int)) (acts : List Action)
+    (hS : scnOK w.log (seqKeys fc) (initOf w.p0 w.q0 w.c0) = true) (k : Nat) (hk : k ∈ seqKeys fc) :
+    safe (seqLog w.log k) (mkOf w.log) (initOf fp fq fc k) [] false
+      (projSeq w.log k ((Mgr.start orders w fp fq fc).runActions orders acts).trace) = true := by
+  have hscn := scn_of_ok _ _ _ hS
+  obtain ⟨hw, htr, _⟩ := mgr_projects orders orders_good w fp fq fc hscn acts k hk
+  rw [htr]
+  exact C03_prefix_safe k (mkOf w.log) (seqLog w.log k) _ (initOf fp fq fc k) (hscn.orgNonneg k hk)
+    (hscn.tiledK k hk) _ hw
+
+/-- **Crash and restart for the whole manager model.** First run: any actions; crash at any point
+of its trace (`pre ++ post`).  Second run: a manager started on the same server log from a
+persisted state that, for sequence `k`, is what the first run had stored in `pre`; any actions; at
+its end the position of `k` is at or above every log position of `k`.  Then every non-marker entry
+of `k` above the original start was dispatched in `pre` or in the second run, or too-long was
+reported in one of them. -/
+theorem C03_manager_restart_complete (w : World) (fp fq : Int) (fc : List (Nat × Int)) (acts1 : List Action)
+    (hS : scnOK w.log (seqKeys fc) (initOf w.p0 w.q0 w.c0) = true) (k : Nat) (hk : k ∈ seqKeys fc)
+    (pre post : List Event) (hp : ((Mgr.start orders w fp fq fc).runActions orders acts1).trace = pre ++ post)
+    (w2 : World) (hl2 : w2.log = w.log) (hp2 : w2.p0 = w.p0) (hq2 : w2.q0 = w.q0) (hc2 : w2.c0 = w.c0)
+    (fp2 fq2 : Int) (fc2 : List (Nat × Int)) (hkeys : seqKeys fc2 = seqKeys fc)
+    (hstart : initOf fp2 fq2 fc2 k = lastStore (initOf fp fq fc k) (projSeq w.log k pre))
+    (acts2 : List Action) (b : Box)
+    (hb : ((Mgr.start orders w2 fp2 fq2 fc2).runActions orders acts2).getBox k = some b)
+    (hrec : ∀ e ∈ seqLog w.log k, e.pos ≤ b.state) :
+    let t2 := projSeq w.log k ((Mgr.start orders w2 fp2 fq2 fc2).runActions orders acts2).trace
+    hasTooLong (projSeq w.log k pre) = true ∨ hasTooLong t2 = true ∨
+      ∀ e ∈ seqLog w.log k, initOf fp fq fc k < e.pos →
+        mkOf w.log e.id = true ∨ e.id ∈ dispatchedIds (projSeq w.log k pre) ∨ e.id ∈ dispatchedIds t2 := by
+  intro t2
+  have hscn := scn_of_ok _ _ _ hS
+  obtain ⟨hw1, htr1, _⟩ := mgr_projects orders orders_good w fp fq fc hscn acts1 k hk
+  have hscn2 : Scn w2.log (seqKeys fc2) (initOf w2.p0 w2.q0 w2.c0) := by
+    rw [hl2, hp2, hq2, hc2, hkeys]; exact hscn
+  obtain ⟨hw2, htr2, hbox2⟩ := mgr_projects orders orders_good w2 fp2 fq2 fc2 hscn2 acts2 k (by rw [hkeys]; exact hk)
+  rw [hl2] at hw2 htr2 hbox2
+  rw [hstart] at hw2 htr2 hbox2
+  rw [hp, projSeq_append] at htr1
+  have := C03_restart_complete k (mkOf w.log) (seqLog w.log k) _ (initOf fp fq fc k) (hscn.orgNonneg k hk)
+    (hscn.tiledK k hk) _ _ hw1 (projSeq w.log k pre) (projSeq w.log k post) htr1.symm hw2
+    (by
+      intro e he
+      rw [hb] at hbox2
+      rw [← Option.some.inj hbox2]
+      exact hrec e he)
+  simp only at this
+  rw [← htr2] at this
+  exact this
 
 end TdModel.C03
